@@ -164,7 +164,7 @@ var registry = map[string]check{
 	"C10": {
 		parts:  []part{{"runtime", layerr.C10, 16, 64}},
 		replay: layerr.ReplayC10, level: "exploration",
-		rule:        "cases = (iterator kind: string/int/slice/slice of any/map/map of any/chan) x input x step script (Current read once or twice after each advance, then mutator/producer steps: element writes ahead/behind the cursor, append, reslice, map overwrite/delete, channel send/close). Strings: all strings up to length 3 (quick) / 4 (thorough) over a 12-symbol alphabet of ASCII, 2/3/4-byte runes, invalid and truncated sequences, surrogate halves and NUL are enumerated, plus random longer strings and raw bytes. Oracle: the native range statement over the same value run as a coroutine under the same script; multi-entry maps by the spec-derived invariant (each present key exactly once with its current value, deleted-before-reached never), which is self-checked against native range on every case. Non-trivial = history of >= 4 events; distinct = digest of the case.",
+		rule:        "cases = (iterator kind: string/int/slice/slice of any/map/map of any/chan) x input x step script (Current read once or twice after each advance, then mutator/producer steps: element writes ahead/behind the cursor, append, reslice, map overwrite/delete, channel send/close). Strings: all strings up to length 3 (quick) / 4 (thorough) over a 24-symbol alphabet (ASCII, first and last rune of every encoded length, validly encoded U+FFFD, invalid bytes, truncated sequences, a surrogate half, overlong and out-of-range encodings, NUL) are enumerated, plus random longer strings and raw bytes. Oracle: the native range statement over the same value run as a coroutine under the same script; multi-entry maps by the spec-derived invariant (each present key exactly once with its current value, deleted-before-reached never), which is self-checked against native range on every case. Non-trivial = history of >= 4 events; distinct = digest of the case.",
 		assumptions: []string{"Go's range statement is the specification", "strings and ints have no second actor: that part is seeded/enumerated inputs, not interleavings (DESIGN.md 4 C10)"},
 		components:  compR,
 	},
